@@ -13,6 +13,8 @@ CHECK = {
  'level_note': 'BLS via the real blst bindings; over-long bitmaps are not asserted (statement does not require rejection), too-short ones are C09.',
  'technique': 'property-based testing (rapid) with a by-construction oracle and a self-consistency (round-trip) relation',
  'assumptions': ['fake deterministic application', 'certificates are those of the node\'s own chain'],
- 'quick': [{'pkg': 'c06', 'checks': 60, 'timeout': 900}],
- 'thorough': [{'pkg': 'c06', 'checks': 800, 'shards': 16, 'timeout': 2400}],
+ 'quick': [{'pkg': 'c06', 'checks': 60, 'timeout': 900, 'args': ['-test.skip', 'TestPoolLaggingCertification']},
+           {'pkg': 'c06', 'run': 'TestPoolLaggingCertification', 'checks': 25, 'timeout': 600}],
+ 'thorough': [{'pkg': 'c06', 'checks': 800, 'shards': 14, 'timeout': 2400, 'args': ['-test.skip', 'TestPoolLaggingCertification']},
+              {'pkg': 'c06', 'run': 'TestPoolLaggingCertification', 'checks': 400, 'shards': 2, 'timeout': 2400}],
 }
